@@ -22,13 +22,12 @@ CLAIM = {
     "text": "Decides, from the source trees of the current tree: every SGR chunk pushed by the encoder's FaceModify and Face arms (reset, "
             "bold/italic/blink/strike on and off, six underline styles, the three colour roles in the 38/48/58;2;r;g;b form) is mapped by the "
             "decoder's sgr_face/sgr_color arms back to the same field and value, reset is written first, the ESC[ ; m framing and ;/: splitting "
-            "agree, and a true-colour triple is read back unchanged also when another parameter follows it; FaceModify::apply's (update, flag) "
+            "agree, a true-colour triple is read back unchanged also when another parameter follows it and a component above 255 yields no colour; FaceModify::apply's (update, flag) "
             "table is injective, name-consistent and complete, and apply - evaluated on all 192 valid attribute states x 2 colour states for "
             "every single-field modification and all set/clear combinations of the four flags - sets or clears exactly that attribute and "
             "reset yields the default face; every XAssign operator of FaceAttrs equals `*self = *self X rhs` on all 256x256 raw values; "
             "pack/unpack/underline/From and the bit constants realise the 3-bit-style + flags<<3 layout on all 8-bit values. NOT decided: "
-            "arbitrary SGR histories and chunked writes through TTYCellWriter, the decoder automaton that frames ESC[..m, colour component "
-            "overflow, ECMA-48 conformance of the code numbers (bold-off is 21 on both sides).",
+            "arbitrary SGR histories and chunked writes through TTYCellWriter, the decoder automaton that frames ESC[..m, ECMA-48 conformance of the code numbers (bold-off is 21 on both sides).",
     "technique": "finite match/array table extraction and agreement, exhaustive denotational evaluation of small pure functions over finite domains (src.json expression trees)",
     "design_ref": "DESIGN.md §5 C06",
 }
